@@ -99,7 +99,7 @@ func init() {
 		rule: "RoundTrip.tla enumerates the structure bracketing and spacing depend on: every term shape of depth <= 2 over 17 atom classes, 7 number classes, variables, 6 prefix / 13 infix / 2 postfix operator functors (default and " +
 			"user-defined, an atom that is prefix and infix at once, ',' and '|'), compounds, lists, partial lists, curly terms - every (context operator, operand kind) pair on the left and on the right - x 5 operator tables reached by " +
 			"op/3 histories x 4 writers x 3 double_quotes settings (quick: a covering selection of the combinations). The replayer concretises each class with seeded samples, builds the term without the reader, writes it, appends ' .' " +
-			"and reads it back in the same interpreter: the law Variant(Read(Write(T)), T), floats bit for bit. numtrip: number_codes/2, number_chars/2 and writeq/read_term on seeded random doubles of all exponents, hard cases and " +
+			"and reads it back in the same interpreter: the law Variant(Read(Write(T)), T), floats bit for bit. writetok (code -> spec): a sample of the cases is written by the real writer, cut into tokens by the real lexer (accessor hook) and TLC checks with SyntaxTrace.tla that the term is one the ISO term grammar of Syntax.tla gives these tokens under the table in force - the writer is held to the grammar, not only to what this reader accepts. numtrip: number_codes/2, number_chars/2 and writeq/read_term on seeded random doubles of all exponents, hard cases and " +
 			"64-bit integers. distinct_nontrivial = distinct cases with an operator functor or an atom that needs quoting",
 		assume:  []string{"'$VAR'(N) terms are not generated (excluded by the property)", "characters and float digits are reached through sampled concretisations of lexical classes, not enumerated (TLA+ has neither)"},
 		trusted: []string{"TLC", "RoundTrip.tla (enumeration and law; the oracle is the law itself)", "atom_codes/2 and =../2 as the parser-free way of building the term"},
@@ -118,6 +118,16 @@ func init() {
 				}
 				return ""
 			})
+			// the writer against the grammar: what was written, cut into tokens by the real lexer, must denote the term under the
+			// table in force (Syntax.tla), independently of what the real reader makes of it
+			every := 8
+			if c.tier == "thorough" {
+				every = 3
+			}
+			traces := c.recordTraces("writetok", r.cases, replayOpts{every: every, chunk: 64, opts: map[string]string{"seed": strconv.FormatInt(c.seed, 10)}},
+				func(cs map[string]J) map[string]J { return map[string]J{} })
+			c.validateTraces("writetok", "SyntaxTrace", "SyntaxTrace.cfg", traces, traceOpts{})
+			c.bindingSelfTest("SyntaxTrace", "SyntaxTrace.cfg", traces, 4)
 			n := 20000
 			if c.tier == "thorough" {
 				n = 300000
